@@ -251,8 +251,17 @@ class C06(ProcessEngine):
                 return int(t[1:], 16)
             except ValueError:
                 return -1
-        for t in sorted(seen, key=idnum):
-            events.append({"ev": "Observe", "id": dg(max(idnum(t), 0)), "text": [ord(c) for c in t]})
+        # bind each identifier text to an issued id: by its hexadecimal tail (the format of the pinned tree), or - when
+        # the texts are not spelled like that (the property does not fix the spelling) - by rank among the distinct
+        # texts, so that a text seen twice still maps to one id and is rejected as "seen before"
+        iss = sorted(set(issued))
+        if all(idnum(t) in set(iss) for t in seen):
+            idof = {t: idnum(t) for t in seen}
+        else:
+            ctx.notes.append("identifier texts are not <char><hex id>: bound to the issued ids by rank")
+            idof = {t: (iss[i] if i < len(iss) else (iss[-1] if iss else 0) + 1 + i) for i, t in enumerate(sorted(set(seen)))}
+        for t in sorted(seen, key=lambda t: idof[t]):
+            events.append({"ev": "Observe", "id": dg(max(idof[t], 0)), "text": [ord(c) for c in t]})
             ctx.note_case(t, sample=t if len(ctx.samples) < 3 else None)
         # math.random
         rnd_cases = []
